@@ -15,6 +15,10 @@ def run(ctx):
                          "distinct = distinct (call, alteration sequence, live/expired, same key, same user, verdict) classes")
     ctx.notes["constants"] = cfg
     ctx.replay_and_compare("c20", r.records)
+    # secrets of particular lengths sharing a prefix (64-byte keys differing in their second half, their 32-byte
+    # prefix, ...): different secrets like any others
+    rk = ctx.tlc("Tokens_gen", "Tokens_gen_keys.cfg")
+    ctx.replay_and_compare("c20", rk.records)
     # Issue, Validate, time passes, Validate: one token string presented before and after its expiry in real time
     # (the only behaviour of Tokens.tla that shifting the expiry caveat cannot realise); lifetimes of 2 and 3 s
     seq = [{"secret": s, "user": u, "dur": d} for s in ("k1", "k1 ") for u in ("@alice:example.org", "user1") for d in (2, 3)]
